@@ -203,7 +203,7 @@ CATALOGUE: list[tuple[str, list[str], list[Edit], str]] = [
     # ---- C17
     ("c17-back-to-startswith", ["C17"], [E("drawing.py", ("SQLLineageApp", "is_path_allowed"), lambda n, s: isinstance(n, ast.Return), lambda s: "return str(Path(path).absolute()).startswith(str(Path(self.root_path).absolute()))")], "mutant"),
     ("c17-guard-only-f", ["C17"], [E("drawing.py", ("SQLLineageApp", "__call__"), lambda n, s: isinstance(n, ast.List) and s == '["d", "f"]', lambda s: '["f"]')], "mutant"),
-    ("c17-directory-parent-guard-removed", ["C17"], [E("drawing.py", ("directory",), lambda n, s: isinstance(n, ast.If) and "is_path_allowed" in s, lambda s: "pass")], "mutant"),
+    ("c17-directory-parent-guard-removed", ["C17"], [E("drawing.py", ("directory",), lambda n, s: isinstance(n, ast.If) and s.startswith("if not app.is_path_allowed"), lambda s: "pass")], "mutant"),
     ("c17-dotdot-check-removed", ["C17"], [E("drawing.py", ("SQLLineageApp", "__call__"), lambda n, s: isinstance(n, ast.If) and s.startswith('if ".." in path_info'), lambda s: "pass")], "mutant"),
     # ---- C18
     ("c18-edge-source-repr", ["C18"], [E("io.py", ("to_cytoscape",), lambda n, s: isinstance(n, ast.Call) and s == "str(edge[0])", lambda s: "repr(edge[0])")], "mutant"),
